@@ -84,14 +84,22 @@ func main() {
 	overlay := map[string]string{}
 	st := &stats{KeyTypes: map[string]int{}}
 
-	// 1. runtime patch
+	// 1. patched GOROOT files (produced by setup.sh)
 	rt := filepath.Join(*verif, ".build", "rt")
-	for _, f := range []string{"proc.go", "select.go", "time.go", "rand.go", "runtime2.go", "zz_sim.go"} {
-		p := filepath.Join(rt, f)
-		if _, err := os.Stat(p); err != nil {
-			fatal("patched runtime file missing: %s (run setup)", p)
+	lst, err := os.ReadFile(filepath.Join(rt, "files.txt"))
+	if err != nil {
+		fatal("patched GOROOT file list missing (run setup): %v", err)
+	}
+	for _, ln := range strings.Split(strings.TrimSpace(string(lst)), "\n") {
+		f := strings.Fields(ln)
+		if len(f) != 2 {
+			fatal("bad line in files.txt: %q", ln)
 		}
-		overlay[filepath.Join(*goroot, "src", "runtime", f)] = p
+		p := filepath.Join(rt, f[1])
+		if _, err := os.Stat(p); err != nil {
+			fatal("patched file missing: %s (run setup)", p)
+		}
+		overlay[filepath.Join(*goroot, f[0])] = p
 	}
 
 	// 2. virtual harness packages
@@ -114,7 +122,8 @@ func main() {
 		Dir:  *repo,
 		Env:  append(os.Environ(), "GOFLAGS=-mod=mod", "GOPROXY=off", "GOTOOLCHAIN=local", "PATH="+filepath.Join(*goroot, "bin")+":"+os.Getenv("PATH")),
 	}
-	pkgs, err := packages.Load(cfg, "./...")
+	var pkgs []*packages.Package
+	pkgs, err = packages.Load(cfg, "./...")
 	if err != nil {
 		fatal("load: %v", err)
 	}
